@@ -36,7 +36,8 @@ RULE = ("stream cases = (protocol variant v1|v2 plain|v2 encrypted) x channels{1
         "stream, real send_audio and teardown, reset() in between as the code does), with retransmit requests during "
         "earlier and later streams, also with the same start sequence number twice. non-trivial = the stream has a "
         "short last data packet, or wraps the sequence number, or compensated at least once, or a request that "
-        "crosses the wrap / the backlog edge, or a fifo script with an eviction or a raise, or a session of >= 2 streams; distinct = canonical case")
+        "crosses the wrap / the backlog edge, or a fifo script with an eviction or a raise, or a session of >= 2 streams; plus one stream of more than 2^16 packets (a full circle of the sequence space; "
+        "thorough: a second, all-silence one that is also run on the model); distinct = canonical case")
 ASSUMPTIONS = [
     "AudioSource.readframes(n) returns the next n*frame_size bytes of the source, fewer at the end, b'' when exhausted",
     "the stream is not stopped (stop()) and the audio transport is not closing while it runs",
@@ -341,7 +342,9 @@ def oracle_stream(case, obs, opened):
             break
     markers = [bool(f[1] & 0x80) for f in fields]
     if markers and (not markers[0] or any(markers[1:])):
-        problems.append(("marker", "first-packet marker pattern %s" % ("".join("M" if m else "." for m in markers[:12]))))
+        marked = [i for i, m in enumerate(markers) if m]
+        problems.append(("marker", "first-packet marker pattern %s; packets carrying the marker: %s"
+                         % ("".join("M" if m else "." for m in markers[:12]), marked[:8])))
     return problems
 
 
@@ -923,7 +926,7 @@ def run_cases(ctx, cases):
     for case in cases:
         obs = execute(case)
         opened = [open_datagram(case, d, i) for i, d in enumerate(obs["datagrams"])]
-        ls = model_lines(case, obs) if obs["start_ts"] is not None else []
+        ls = model_lines(case, obs) if obs["start_ts"] is not None and case.get("model", True) else []
         spans.append((len(lines), len(ls)))
         lines += ls
         results.append((case, obs, opened))
@@ -947,8 +950,10 @@ def run_cases(ctx, cases):
                                                     "comp": obs["comp"][:12], "first_seq": seqs[:1]})
         if n:
             compare(ctx, case, obs, opened, answers[off:off + n])
-        else:
+        elif case.get("model", True):
             ctx.disagree(case_id(case), obs["error"], "n/a", where="setup")
+        else:
+            ctx.note("oracle-only (stream too long for the interpreted model driver)")
         for sig, what in (oracle_stream(case, obs, opened) if case.get("oracle", True) else []):
             ctx.fail("stream:" + sig, case_id(case), what, "see property C16", what)
         seen = set()
@@ -961,6 +966,29 @@ def run_cases(ctx, cases):
         for r in obs["responses"]:
             if r["first"] + r["count"] > MOD and r["out"]:
                 ctx.note("requests:across-wrap")
+
+
+def gen_full_circle_cases(ctx):
+    """Streams longer than one full circle of the 16-bit sequence space (> 65536 packets,
+    1-byte frames): packet 65536 carries the first packet's sequence number again.  The theorems
+    hold for every length; this puts the real loop there too.  No compensation (every packet is
+    sent by the main loop), a few retransmit requests against the final backlog.  The run with a
+    real source is oracle-only (its 23 MB source is too much for the interpreted model driver);
+    in the thorough tier a second run of the same length that is all silence (empty source, latency
+    of 65 540 packets) is also compared with the model."""
+    rng = ctx.rng.fork("full-circle")
+    cases = []
+    npk = MOD + rng.randrange(3, 40)
+    s0 = rng.choice((0, 65535, rng.randrange(MOD)))
+    total = npk + 1
+    reqs = [[-1, (s0 + total - 1000 + f) % MOD, c] for f, c in ((0, 3), (-2, 5), (997, 6), (500, 4))]
+    reqs += [[-1, s0, 2], [-1, (s0 + MOD - 1) % MOD, 3], [-1, (s0 + total - 1000) % MOD, 1000]]
+    cases.append(base_case(rng, variant="v1", channels=1, bps=1, frames=npk * FPP - rng.randrange(0, FPP), s0=s0,
+                           latency=FPP, lagp=0.0, requests=reqs, model=False))
+    if ctx.thorough:
+        cases.append(base_case(rng, variant="v1", channels=1, bps=1, frames=0, s0=rng.randrange(MOD),
+                               latency=(MOD + rng.randrange(3, 40)) * FPP, lagp=0.0))
+    return cases
 
 
 def d11_witness_case(rng):
@@ -982,6 +1010,7 @@ def run(ctx, only=None, only_sessions=None):
     run_sessions(ctx, gen_sessions(ctx))
     run_cases(ctx, gen_retransmit_cases(ctx))
     run_cases(ctx, gen_stream_cases(ctx))
+    run_cases(ctx, gen_full_circle_cases(ctx))
 
 
 def replay(ctx, failure):
